@@ -2,7 +2,7 @@
    real DrandDaemon by harness/engrouting), a request, and what the real code did;
    [mismatches] lists the cases on which Model/Routing.v disagrees. *)
 From Coq Require Import ZArith List Bool.
-From DV Require Import Model.Routing Corr.CorrBase.
+From DV Require Import Model.Routing Model.Time Gen.Consts Corr.CorrBase.
 Import ListNotations.
 Open Scope Z_scope.
 
@@ -95,7 +95,11 @@ Inductive rcase :=
 | RStep (dk : list (str * group)) (evs : list event) (e : event) (c : Z)
 | RHttp (dk : list (str * group)) (evs : list event) (path : option str) (o : http_route_res)
 | RDkg (dk : list (str * group)) (evs : list event) (m : option str) (o : dkg_route)
-| RStub (ops : list hop) (path : option str) (o : http_route_res).
+| RStub (ops : list hop) (path : option str) (o : http_route_res)
+(* GET /{hash}/public/{r} on a chain with period p s and genesis g, at instant now: was the request
+   handed to the backend client? Only a round whose scheduled time (Model/Time.v: the documented
+   error value for rounds that cannot be scheduled) has come is. *)
+| RSched (p g r now : Z) (forwarded : bool).
 
 Definition ok (c : rcase) : bool :=
   match c with
@@ -111,6 +115,7 @@ Definition ok (c : rcase) : bool :=
   | RHttp dk evs path o => hroute_eqb (http_route (http (run (init_daemon dk) evs)) path) o
   | RDkg dk evs m o => droute_eqb (dkg_proxy (run (init_daemon dk) evs) m) o
   | RStub ops path o => hroute_eqb (http_route (fold_left hop_step ops []) path) o
+  | RSched p g r now fw => Bool.eqb (time_of_round time_buffer_bits p g r <=? now) fw
   end.
 
 Definition mismatches (cs : list rcase) : list Z := mism_from ok 0 cs.
